@@ -580,6 +580,29 @@ func c01Run(t *testing.T, o *vOut, r *vRand, nOps int, idx int, addPathMode bool
 				note("up %d", i)
 				o.stat("op_up", 1)
 			}
+		case x < 12:
+			// a session comes up while another peer's UPDATE is being processed: the UPDATE is
+			// handled after the initial table transfer of the new session and before the FSM
+			// goroutine publishes its state (fsmHandler.loop stores the state after the callback)
+			if vp.up {
+				continue
+			}
+			var src *vwPeer
+			si := 0
+			for k, q := range w.peers {
+				if q.up && q != vp {
+					src, si = q, k
+				}
+			}
+			if src == nil {
+				continue
+			}
+			rt := c01GenRoute(r, sc, src)
+			w.sessionUp(vp, func() { w.recv(src, rt.msg(src)) })
+			sc.latest[si][fmt.Sprintf("%d#%d", rt.pfx, rt.pathID)] = rt
+			note("up %d", i)
+			note("ann %d %s", si, rt.line())
+			o.stat("op_up_with_update_in_window", 1)
 		case x < 70:
 			if !vp.up {
 				continue
